@@ -341,3 +341,41 @@ func H_C07_live() {
 	vAssert("exactly-the-live-upf-chosen-identifiers-are-marked", len(e.u.fteidGenerator.usedMap) == 1)
 	vCover("live")
 }
+
+// H_C07_core: a CHOOSE F-TEID on a core-side Create PDR (N9) is served like one on
+// the access side: a non-zero identifier, marked in use, distinct from every
+// other identifier chosen for live PDRs - and both are reported.
+func H_C07_core() {
+	e := vNewEnv(false)
+	e.pc.rng = vRng()
+	e.dp.fixedCause = 1
+	pdrs, fars, qers := vConcreteRules()
+	pdrs[0].choose = vBool("choose_on_access_pdr")
+	pdrs[1].choose = true
+	e.vSend(vEstablishment(1, 0xa1, "cp.test", pdrs, fars, qers))
+	r, ok := e.vLastReply().(*message.SessionEstablishmentResponse)
+	vAssert("accepted", ok && vCauseOf(r.Cause) == ie.CauseRequestAccepted)
+	want := 1
+	if pdrs[0].choose {
+		want = 2
+	}
+	vAssert("one-created-pdr-per-chosen-identifier", len(r.CreatedPDR) == want)
+	seen := map[uint32]bool{}
+	for _, c := range r.CreatedPDR {
+		ft, err := c.FTEID()
+		vAssert("created-pdr-reports-an-f-teid", err == nil)
+		vAssert("chosen-identifier-non-zero", ft.TEID != 0)
+		vAssert("chosen-identifier-marked-in-use", e.u.fteidGenerator.IsAllocated(ft.TEID))
+		vAssert("chosen-identifiers-distinct", !seen[ft.TEID])
+		seen[ft.TEID] = true
+	}
+	// the datapath was programmed with the reported identifiers
+	for _, m := range e.dp.msgs {
+		for _, p := range m.all.pdrs {
+			if p.UPAllocateFteid {
+				vAssert("programmed-identifier-is-a-reported-one", seen[p.tunnelTEID])
+			}
+		}
+	}
+	vCover("core")
+}
